@@ -44,6 +44,11 @@ pub fn same_rows(a: &RowsOut, b: &RowsOut, tol: f64) -> bool {
     a.rows.len() == b.rows.len() && a.rows.iter().zip(b.rows.iter()).all(|(x, y)| x.len() == y.len() && x.iter().zip(y.iter()).all(|(p, q)| p.same(q, tol)))
 }
 
+/// the two runs execute the same operations in the same order: their outputs are compared as printed (REALs bit for bit)
+pub fn identical_rows(a: &RowsOut, b: &RowsOut) -> bool {
+    a.rows.len() == b.rows.len() && a.rows.iter().zip(b.rows.iter()).all(|(x, y)| x.len() == y.len() && x.iter().zip(y.iter()).all(|(p, q)| p.identical(q)))
+}
+
 pub fn show_rows(r: &RowsOut, n: usize) -> String { format!("{} rows: {}", r.rows.len(), r.rows.iter().take(n).map(|x| show_row(x)).collect::<Vec<_>>().join(" ")) }
 
 #[derive(Clone, Copy, PartialEq, Debug)]
@@ -77,6 +82,7 @@ pub fn gen_base(rng: &mut Rng, cfg: &BaseCfg) -> (J, StdTable, Sel, Shape) {
     // order-insensitive aggregates over integers that are distinct but equal as doubles (few lines: sums stay inside 64 bits)
     let big_ints = cfg.order_insensitive_only && n <= 40 && rng.chance(1, 6);
     if big_ints { dc.big_ints = true; }
+    if rng.chance(1, 12) { dc.zeros = true; }
     let mut lines = std_lines(rng, &t, n, &dc);
     // empty lines, blanks and foreign text between the records (rows only where a DEFAULT makes them rows)
     if rng.chance(1, 5) { for _ in 0..(1 + rng.below(4)) { let at = rng.below(lines.len() + 1); lines.insert(at, rng.pick(&["", "", " ", "garbage", "{}", "k="]).to_string()); } }
